@@ -13,4 +13,20 @@ theorem prelude_simplify_total (q : Quantity ℝ) : ∃ r, fullSimplify preludeT
 theorem prelude_simplifyReg_total (reg : List RegRow) (q : Quantity ℝ) : ∃ r, fullSimplifyReg preludeTable reg q = some r :=
   simplifyReg_total preludeTable preludeTable_wf preludeTable_names reg q
 
+/-- for the units of the prelude: a displayed (simplified) result converts back to the unit of the unsimplified
+computation, and that gives the unsimplified magnitude -/
+theorem prelude_simplify_convert_back (q r : Quantity ℝ) (h : fullSimplify preludeTable q = some r) :
+    ∃ q', convertTo preludeTable r q.unit = .ok q' ∧ q'.value = q.value ∧ q'.unit = q.unit :=
+  simplify_convert_back preludeTable preludeTable_pos preludeTable_wf preludeTable_names q r h
+
+theorem prelude_simplifyReg_convert_back (reg : List RegRow) (q r : Quantity ℝ)
+    (h : fullSimplifyReg preludeTable reg q = some r) :
+    ∃ q', convertTo preludeTable r q.unit = .ok q' ∧ q'.value = q.value ∧ q'.unit = q.unit :=
+  simplifyReg_convert_back preludeTable preludeTable_pos preludeTable_wf preludeTable_names reg q r h
+
+theorem prelude_simplifyReg_dim (reg : List RegRow) (q r : Quantity ℝ)
+    (h : fullSimplifyReg preludeTable reg q = some r) :
+    q.isZero = true ∨ ∀ b, unitVec preludeTable r.unit b = unitVec preludeTable q.unit b :=
+  simplifyReg_dim preludeTable preludeTable_pos preludeTable_wf preludeTable_names reg q r h
+
 end NumbatModel.Qty
